@@ -478,6 +478,12 @@ func (w *responseWriter) WriteMsg(m *dns.Msg) error {
 			}
 			return w.ResponseWriter.WriteMsg(filtered)
 		}
+		if stripped > 0 {
+			// Every AAAA was stripped. If synthesis below has nothing to
+			// offer, this copy is what the client gets — an RRset the
+			// validator never vouched for in this shape.
+			filtered.AuthenticatedData = false
+		}
 		m = filtered
 	}
 
